@@ -60,7 +60,7 @@ removal is visible as such in its signature (xform=int/mark/fn, not xform=trafo)
 import itertools
 
 from vf import xform
-from vf.explore import deviations
+from vf.explore import deviations, seeded_order
 
 PROPERTY = 'C28'
 LEVEL = 'exploration'
@@ -107,6 +107,7 @@ CMOD = '''module cmod
   integer, parameter :: rk = 4
   integer, parameter :: c1 = 3
   integer, parameter :: c2 = 2 * c1 + 1
+  integer, parameter :: c7 = 7
   integer, parameter :: cneg = -2
   real, parameter :: half = 0.5
   real(kind=rk), parameter :: quart = 0.25_rk
@@ -372,10 +373,19 @@ P_BLOCKS = {
     real, intent(inout) :: v(m)
     v = v * 2.0
     v(:) = v(:) + 1.0
-    v(2:) = v(:m - 1) + 0.5
     v(1) = sum(v) + v(ubound(v, 1)) + v(lbound(v, 1))
   end subroutine sc14
 ''', ['sc14']),
+    'open_range_in_callee': B('''    !@INL
+    call sc14o(3, b(2:4))
+    !@INL
+    call sc14o(n + 1, a)
+''', '''  subroutine sc14o(m, v)
+    integer, intent(in) :: m
+    real, intent(inout) :: v(m)
+    v(2:) = v(:m - 1) + 0.5
+  end subroutine sc14o
+''', ['sc14o']),
     'pass_on': B('''    !@INL
     call sc15(n, a)
     !@INL
@@ -385,7 +395,7 @@ P_BLOCKS = {
     real, intent(inout) :: v(1:m + 1)
     v(1) = v(1) + 1.0
     call ext_scale(m, v(1:m))
-    call ext_scale(2, v(2:))
+    call ext_scale(2, v(2:m + 1))
   end subroutine sc15
 ''', ['sc15']),
     'derived_member': B('''    !@INL
@@ -648,17 +658,30 @@ P_BLOCKS = {
 ''', '''  subroutine aa2(m, v)
     integer, intent(in) :: m
     real, intent(inout) :: v(m)
-    real :: tmp(m), tmp2(size(v))
+    real :: tmp(m)
     integer :: jj
     do jj = 1, m
       tmp(jj) = v(m + 1 - jj)
-      tmp2(jj) = 1.0
     end do
     do jj = 1, m
-      v(jj) = tmp(jj) + tmp2(jj)
+      v(jj) = tmp(jj) + 1.0
     end do
   end subroutine aa2
 ''', ['aa2']),
+    'auto_array_size_of_dummy': B('''    !@INL
+    call aa4(b)
+''', '''  subroutine aa4(v)
+    real, intent(inout) :: v(:)
+    real :: tmp4(size(v))
+    integer :: jj
+    do jj = 1, size(v)
+      tmp4(jj) = v(size(v) + 1 - jj)
+    end do
+    do jj = 1, size(v)
+      v(jj) = tmp4(jj) + 1.0
+    end do
+  end subroutine aa4
+''', ['aa4']),
     'auto_array_local_size': B('''    j = n - 1
     !@INL
     call aa3(j, b)
@@ -1156,11 +1179,18 @@ S_BLOCKS = {
 C_BLOCKS = {
     'base': B('''    k = k + c1
 ''', cimports=['c1']),
-    'in_product': B('''    k = k * c2
+    'in_product': B('''    k = k * c7
+    k = k - c7
+    j = 100 / c7
+    r = r + 2.0 ** c7
+''', cimports=['c7']),
+    'param_of_param': B('''    k = k * c2
     k = k - c2
     j = 100 / c2
     r = r + 2.0 ** c2
 ''', cimports=['c2']),
+    'param_of_param_both_imported': B('''    k = k * c2 + c7
+''', cimports=['c2', 'c7', 'c1']),
     'neg_param': B('''    k = k - cneg
     j = k * cneg
     r = r + x * 2.0 ** cneg
@@ -1185,28 +1215,32 @@ C_BLOCKS = {
     k = k + cneg
 ''', decl='''    integer :: cneg
 ''', imports='@MODLEVEL@cneg'),
-    'module_level_import': B('''    k = k + c2
-''', imports='@MODLEVEL@c2'),
+    'module_level_import': B('''    k = k + c7
+''', imports='@MODLEVEL@c7'),
     'used_in_member': B('''    call cmem(k)
 ''', callees='''  subroutine cmem(q)
     integer, intent(inout) :: q
     integer :: c1
     c1 = 4
-    q = q + c1 * c2
+    q = q + c1 * c7
   end subroutine cmem
-''', cimports=['c2']),
-    'renamed_import': B('''    k = k + lc2
-''', imports='@RENAME@lc2 => c2'),
+''', cimports=['c7']),
+    'renamed_import': B('''    k = k + lc7
+''', imports='@RENAME@lc7 => c7'),
     'param_array': B('''    k = k + carr(2) + carr(mod(k, 3) + 1)
     j = sum(carr)
 ''', cimports=['carr']),
-    'local_param': B('''    lt = 0.5
-    k = k + lp + lp2
-    r = r + sum(lt)
+    'local_param': B('''    k = k + lp * 2
 ''', decl='''    integer, parameter :: lp = 5
-    integer, parameter :: lp2 = c1 + 1
-    real :: lt(lp)
+'''),
+    'local_param_expr': B('''    k = k + lp2 * 2
+''', decl='''    integer, parameter :: lp2 = c1 + 1
 ''', cimports=['c1']),
+    'local_param_dim': B('''    lt = 0.5
+    r = r + sum(lt)
+''', decl='''    integer, parameter :: lp3 = 5
+    real :: lt(lp3)
+'''),
     'local_param_literal_kind': B('''    r = r + lq
 ''', decl='''    real(kind=rk), parameter :: lq = 1.5_rk
 ''', cimports=['rk']),
@@ -1221,9 +1255,9 @@ C_BLOCKS = {
     end select
 ''', cimports=['c1']),
     'as_actual': B('''    call addint(c1, k)
-    call addint(c2 - c1, k)
-''', cimports=['c1', 'c2']),
-    'use_without_only': B('''    k = k + c2
+    call addint(c7 - c1, k)
+''', cimports=['c1', 'c7']),
+    'use_without_only': B('''    k = k + c7
     r = r + gvar
 ''', imports='@ALL@'),
     'non_parameter_import': B('''    r = r + gvar
@@ -1293,6 +1327,16 @@ XFORMS = {
     'const': [('const', dict(external_only=True)), ('const', dict(external_only=False)),
               ('trafo', dict(inline_constants=True, external_only=True)),
               ('trafo', dict(inline_constants=True, external_only=False))],
+}
+
+
+# pairs of blocks (d=2) are run under the plain utility and under the default transformation only
+PRIMARY = {
+    'int': [XFORMS['int'][0], XFORMS['int'][2]],
+    'mark': [XFORMS['mark'][0], XFORMS['mark'][2]],
+    'fn': [XFORMS['fn'][0], XFORMS['fn'][1], XFORMS['fn'][3]],
+    'stmt': XFORMS['stmt'],
+    'const': [XFORMS['const'][0], XFORMS['const'][1]],
 }
 
 
@@ -1400,7 +1444,7 @@ def make_cases(d):
         names = [k for k, b in menu.items() if k != 'base' and (b['only'] is None or tmpl in b['only'])]
         for dev in deviations({k: [True] for k in names}, d):
             blocks = ['base'] + [k for k in names if k in dev]
-            for xf, opts in XFORMS[tmpl]:
+            for xf, opts in (XFORMS[tmpl] if len(dev) <= 1 else PRIMARY[tmpl]):
                 cases.append(_mk(tmpl, blocks, xf, opts))
     # all-in-one kernel: option product on the base kernel; feature blocks under the reduced option list
     full = d >= 2
@@ -1454,10 +1498,56 @@ def apply(case, files):
             raise ValueError(xf)
 
 
-def worker(case):
-    r = xform.run_case(case, apply, base=worker.base)
-    r['id'] = case['id']
-    return r
+def judge(case, orig=None, base=None):
+    """xform.run_case with an optional pre-built original (all variants of one program share it)."""
+    import traceback
+    from loki import Sourcefile, Frontend
+    xform.quiet()
+    if orig is None:
+        orig = xform.build_run(case['sources'], case['driver'], case.get('extra', ()), base=base)
+    if not orig['ok']:
+        return dict(verdict='HARNESS', detail=f'original fails at {orig["stage"]}: {orig["err"][-600:]}', changed=False)
+    try:
+        files = xform.parse_sources(case)
+        apply(case, files)
+        new = [[f, files[f].to_fortran()] for f, _ in case['sources']]
+    except Exception as ex:  # pylint: disable=broad-except
+        tb = traceback.format_exc().strip().splitlines()
+        where = next((ln.strip() for ln in reversed(tb) if ln.strip().startswith('File "') and '/loki/' in ln), '')
+        if xform.is_refusal(ex):
+            return dict(verdict='refused', detail=f'{type(ex).__name__}: {str(ex)[:200]}', changed=False)
+        return dict(verdict='loki-exception', detail=f'{type(ex).__name__}: {str(ex)[:300]} @ {where}', changed=False)
+    base_text = [Sourcefile.from_source(t, frontend=Frontend.FP).to_fortran() for _, t in case['sources']]
+    changed = base_text != [t for _, t in new]
+    if not changed:
+        # byte-identical to the untransformed round trip, which C01 covers: nothing to judge here
+        return dict(verdict='unchanged-ok', detail='', changed=False)
+    res = xform.build_run(new, case['driver'], case.get('extra', ()), base=base)
+    out = dict(changed=changed)
+    if not res['ok']:
+        kind = 'xform-compile-error' if res['stage'] == 'compile' else 'xform-run-error'
+        out.update(verdict=kind, detail=(res['err'] or '')[-900:])
+        return out
+    a, b = xform.norm_out(orig['out']), xform.norm_out(res['out'])
+    if a != b:
+        n = next((i for i, (x, y) in enumerate(zip(a, b)) if x != y), min(len(a), len(b)))
+        out.update(verdict='output-differs',
+                   detail=f'first difference at output line {n + 1}: original {a[n] if n < len(a) else "<eof>"!r} '
+                          f'vs transformed {b[n] if n < len(b) else "<eof>"!r}')
+        return out
+    out.update(verdict='ok', detail='', nlines=len(a), distinct_lines=len(set(a)))
+    return out
+
+
+def worker(group):
+    """group: cases that share sources and driver (the variants of one program): one original build."""
+    orig = xform.build_run(group[0]['sources'], group[0]['driver'], base=worker.base)
+    out = []
+    for case in group:
+        r = judge(case, orig, base=worker.base)
+        r['id'] = case['id']
+        out.append(r)
+    return out
 
 
 worker.base = None
@@ -1496,7 +1586,14 @@ def run(ctx):
     ctx.require(len(ids) == len(set(ids)), 'case ids are not unique')
     worker.base = str(ctx.scratch)
     ctx.reset_pool()
-    results = xform.judge_cases(ctx, cases, worker)
+    groups = {}
+    for i, c in enumerate(cases):
+        groups.setdefault(repr(c['sources']), []).append(i)
+    groups = seeded_order(list(groups.values()), ctx.seed)
+    results = [None] * len(cases)
+    for idx, res in zip(groups, ctx.pmap(worker, [[cases[i] for i in g] for g in groups], chunksize=1)):
+        for i, r in zip(idx, res):
+            results[i] = r
     by_id = {r['id']: r for r in results}
     xform.summarise(ctx, cases, results, sigfn(by_id), min_changed=20)
     per_t = {}
@@ -1525,7 +1622,7 @@ def run(ctx):
 
 
 def replay(case):
-    r = xform.run_case(case, apply)
+    r = judge(case)
     if r['verdict'] == 'HARNESS':
         raise RuntimeError(r['detail'])
     return None if r['verdict'] in ('ok', 'unchanged-ok', 'refused') else f'{r["verdict"]}: {r["detail"]}'
